@@ -6,8 +6,8 @@ CONSTANTS
   MemberMenu = {{"a1", "a2"}, {"a2", "a3"}, {"a3", "a4"}, {"a4"}}
   MinDur = 1
   MaxDur = 3
-  Period = 1
-  CreatePeriod = 2
+  PeriodSet = {1, 3}
+  CreateSet = {2, 4}
   FeeSet = {0, 1, 2}
   DtSet = {0, 1, 2, 3}
   LimitSet = {0, 100}
